@@ -913,7 +913,7 @@ func TestVerifActions(t *testing.T) {
 
 	run(vWitnessCase(0))
 	master := vNewRng(vSeed())
-	n := vCases(400, 12000)
+	n := vCases(400, 6000)
 	for i := 0; i < n; i++ {
 		run(vGenCase(master.fork(uint64(i)), 0))
 	}
